@@ -91,7 +91,8 @@ def classify(p, d, rec, claims):
     bad = mpmon.parse_bad(rec['bad']) if rec.get('bad') else None
     if bad and bad[0] == 'live':
         sig, what = c07.classify(p, bad, claims)
-        if sig in ('c07:live:for-header-kills-target', 'c07:live:jump-in-handler-not-routed-through-finally'):
+        if sig in ('c07:live:for-header-kills-target', 'c07:live:jump-in-handler-not-routed-through-finally',
+                   'c07:live:read-by-lambda-called-after-its-definition'):
             return ('c01:diverge:' + sig.split(':', 2)[2],
                     'converted function diverges (%s: expected %s, observed %s) on an execution where %s' % (
                         d['why'], d['expected'], d['observed'], what))
